@@ -247,6 +247,16 @@ fn emit_cases(sys: &Sys, it: &mut Interner, before: &Snapshot, after: &Snapshot,
     }
 }
 
+/// C04 "the roll always finishes in the single-active-key state": after a complete scripted roll with parents that
+/// answer every request, every class of the CA must be back to one active key.
+fn roll_must_be_finished(sys: &Sys, ca: &str, hist: u64, what: &str, out: &Mutex<Out>) {
+    let tags: Vec<String> = ca_json(sys, ca).and_then(|c| c["resources"].as_object().map(|m| m.iter().map(|(k, rc)| format!("{k}:{}", keystate_tag(rc))).collect())).unwrap_or_default();
+    if tags.is_empty() || tags.iter().any(|t| !t.ends_with(":active")) {
+        out.lock().unwrap().impl_failures.push(json!({"index": null, "history": hist, "class": {"roll_not_finished": true},
+            "what": format!("{what}: after initiate, syncs, activate and syncs with parents that answered every request the key states are {tags:?}")}));
+    }
+}
+
 fn run_history(args: &Args, hist: u64, seed: u64, n_ops: u64, out: &Mutex<Out>) {
     let mut rng = Rng::new(seed);
     let dir = args.out.join(format!("h{hist}"));
@@ -304,6 +314,33 @@ fn run_history(args: &Args, hist: u64, seed: u64, n_ops: u64, out: &Mutex<Out>) 
             let after = snapshot(&sys);
             emit_cases(&sys, &mut it, &before, &after, &json!({"op": name, "ca": "d", "scripted": true}), None, hist, out);
         }
+        roll_must_be_finished(&sys, "d", hist, "scripted key roll of d (one parent)", out);
+    }
+    if hist % 4 == 3 {
+        // a CA with resource classes under TWO parents rolls its keys: the revocation of each old key must go to the
+        // parent of its own class and the roll must finish in every class
+        let steps: Vec<(&str, Box<dyn Fn(&Sys) -> Result<(), String>>)> = vec![
+            ("add_second_parent", Box::new(|s| s.add_parent("d", "b", atoms_to_resources(0x08)).map_err(|e| e.to_string()))),
+            ("sync_parent_b", Box::new(|s| s.sync_rounds("d", "b", 2).map_err(|e| e.to_string()))),
+            ("keyroll_init", Box::new(|s| s.keyroll_init("d").map_err(|e| e.to_string()))),
+            ("sync_parent_a", Box::new(|s| s.sync_rounds("d", "a", 2).map_err(|e| e.to_string()))),
+            ("sync_parent_b", Box::new(|s| s.sync_rounds("d", "b", 2).map_err(|e| e.to_string()))),
+            ("keyroll_activate", Box::new(|s| s.keyroll_activate("d").map_err(|e| e.to_string()))),
+            ("sync_parent_a", Box::new(|s| s.sync_rounds("d", "a", 2).map_err(|e| e.to_string()))),
+            ("sync_parent_b", Box::new(|s| s.sync_rounds("d", "b", 2).map_err(|e| e.to_string()))),
+        ];
+        for (name, step) in steps {
+            let before = snapshot(&sys);
+            let _ = step(&sys);
+            let after = snapshot(&sys);
+            emit_cases(&sys, &mut it, &before, &after, &json!({"op": name, "ca": "d", "scripted": true, "two_parents": true}), None, hist, out);
+        }
+        roll_must_be_finished(&sys, "d", hist, "scripted key roll of d (two parents)", out);
+        // back to one parent for the random part
+        let before = snapshot(&sys);
+        let _ = sys.parent_remove("d", "b");
+        let after = snapshot(&sys);
+        emit_cases(&sys, &mut it, &before, &after, &json!({"op": "remove_second_parent", "ca": "d", "scripted": true}), None, hist, out);
     }
     if hist % 3 == 2 {
         // objects one week outside their margin: a renewal run must leave every ROA and ASPA alone
